@@ -21,6 +21,7 @@ import (
 	_ "verif/props/c15"
 	_ "verif/props/c16"
 	_ "verif/props/c17"
+	_ "verif/props/c18"
 	_ "verif/props/c19"
 	_ "verif/props/c20"
 	_ "verif/props/selftest"
